@@ -2,6 +2,7 @@ package microqr
 
 import (
 	"errors"
+	"fmt"
 	"io"
 	"math/bits"
 	"strconv"
@@ -14,6 +15,8 @@ import (
 
 func DecodeBitmap(img *bitmap.Image) (*QRCode, error) {
 	binimg := internalbitmap.Import(img)
+	// the function pattern tables have their origin at (0, 0).
+	binimg.Rect = binimg.Rect.Sub(binimg.Rect.Min)
 
 	// decode format
 	var rawFormat uint
@@ -31,6 +34,9 @@ func DecodeBitmap(img *bitmap.Image) (*QRCode, error) {
 	}
 
 	w := 8 + 2*int(version)
+	if binimg.Rect.Dx() != w+1 || binimg.Rect.Dy() != w+1 {
+		return nil, fmt.Errorf("microqr: image size %dx%d does not match version M%d", binimg.Rect.Dx(), binimg.Rect.Dy(), version)
+	}
 	used := usedList[version]
 
 	// mask
